@@ -22,6 +22,15 @@ from harness.common import run_driver
 PRE = '''import numpy as np, dimod, copy, pickle, warnings
 from dimod import BinaryQuadraticModel, QuadraticModel, ConstrainedQuadraticModel, SampleSet
 warnings.simplefilter('ignore')
+class LateFuture:
+    """a future that is not done when the call under test is made; it completes when somebody waits for its result"""
+    def __init__(self, value):
+        self._value, self._done = value, False
+    def done(self):
+        return self._done
+    def result(self):
+        self._done = True
+        return self._value
 def deep(x):
     if isinstance(x, np.ndarray):
         return ('array', x.dtype.str, x.shape, x.tobytes())
@@ -247,24 +256,24 @@ def fresh(src, code):
     return env
 
 
-def check_call(ctx, r, kind_name, site, src, code, recv, plain_copy, edits_fn, nscripts, expected=None):
+def check_call(ctx, r, kind_name, site, src, code, recv, plain_copy, edits_fn, nscripts, expected=None, before_recv=None, suffix=''):
     """the generic protocol: receiver unchanged, equal result for plain copies, edit scripts on either side"""
     try:
-        env = fresh(src, f'before = snap({recv})\n' + code + f'\nafter = snap({recv})\nsres = snap(res)')
+        env = fresh(src, f'before = snap({before_recv or recv})\n' + code + f'\nafter = snap({recv})\nsres = snap(res)')
     except Exception as e:  # noqa
         ctx.tick(site + ':raises')
         return None
-    ctx.tick(site)
+    ctx.tick(site + suffix)
     if env['after'] != env['before']:
-        ctx.fail('property', site, 'an input changed by the call' if recv.startswith('(') else 'receiver changed by the call', f'{env["before"]!r} -> {env["after"]!r}',
-                 repro=PRE + src + f'\nbefore = snap({recv})\n' + code + f'\nassert snap({recv}) == before, "receiver changed"', detail=dict(source=src, call=code))
+        ctx.fail('property', site, ('an input changed by the call' if recv.startswith('(') else 'receiver changed by the call') + suffix, f'{env["before"]!r} -> {env["after"]!r}',
+                 repro=PRE + src + f'\nbefore = snap({before_recv or recv})\n' + code + f'\nassert snap({recv}) == before, "receiver changed"', detail=dict(source=src, call=code))
         return env
     def canon(t):
         # models are equal up to variable order (pickle / the serializable form sort the labels); vartype object differences
         # between BQM classes are immaterial
         return (t[0], sorted(t[2]), t[3], t[4]) if t[0] == 'model' else t
     if plain_copy and canon(env['sres']) != canon(env['before']):
-        ctx.fail('property', site, 'result differs from the receiver', f'{env["sres"]!r} != {env["before"]!r}',
+        ctx.fail('property', site, 'result differs from the receiver' + suffix, f'{env["sres"]!r} != {env["before"]!r}',
                  repro=PRE + src + '\n' + code + f'\nS = lambda t: (sorted(t[2]), t[3:]) if t[0] == "model" else t\nassert S(snap(res)) == S(snap({recv})), (snap(res), snap({recv}))', detail=dict(source=src, call=code))
         return env
     if expected is not None:
@@ -300,7 +309,7 @@ def check_call(ctx, r, kind_name, site, src, code, recv, plain_copy, edits_fn, n
                         break
                 nested = culprit is not None and (".info['n']" in culprit or ".info['arr'][" in culprit)
                 icls = ('nested info shared' if nested else
-                        'edit of the receiver visible in the result' if side == 0 else 'edit of the result visible in the receiver')
+                        ('edit of the receiver visible in the result' if side == 0 else 'edit of the result visible in the receiver') + suffix)
                 ctx.fail('property', site, icls, f'after `{culprit}` on {"the receiver" if side == 0 else "the result"} the other object changed',
                          repro=PRE + src + '\n' + code + f'\nw = snap({watched})\n' + '\n'.join(done) + f'\nassert snap({watched}) == w, "edit visible through the other object"',
                          detail=dict(source=src, call=code, edits=done))
@@ -396,6 +405,11 @@ def check_multi_ss(ctx, r, nscripts):
     ma = int(src.split('.reshape(')[1].split(',')[0])
     parts.append(f"extra = dimod.SampleSet.from_samples((np.ones(({ma}, 2), dtype='int8'), ['XA', 'XB']), {('BINARY' if vt != 'SPIN' else 'SPIN')!r}, energy=np.zeros({ma}), "
                  f"info={{'n': {{'k': [1, 2]}}, 'arr': np.array([1, 2, 3]), 'x': 5}}, idx=np.arange({ma}) + 900)")
+    pending = r.random() < .5
+    if pending:
+        parts[0] = parts[0].replace('a = ', 'a_base = ', 1)
+        parts.insert(1, 'a = dimod.SampleSet.from_future(LateFuture(a_base))')
+        parts[2:] = [x.replace('a.record.sample.dtype', 'a_base.record.sample.dtype') for x in parts[2:]]     # do not resolve `a` while building the others
     full = '\n'.join(parts)
     allin = '(' + ', '.join(names) + ',)'
     calls = [
@@ -408,8 +422,9 @@ def check_multi_ss(ctx, r, nscripts):
     out = []
     for site, code, recv, ins in calls:
         env = check_call(ctx, r, 'ss', site, full, code, recv, False,
-                         lambda rr, target, ins=ins, labels=labels: ss_edits(rr, rr.choice(ins) if target.startswith('(') else target,
-                                                                              ['XA'] if False else labels), nscripts)
+                         lambda rr, target, ins=ins, labels=labels: ss_edits(rr, rr.choice(ins) if target.startswith('(') else target, labels), nscripts,
+                         before_recv=recv.replace('(a,', '(a_base,') if pending else None,
+                         suffix=' (first input pending at call time)' if pending else '')
         out.append((site, code, env, names))
     return out
 
@@ -566,6 +581,15 @@ def run(ctx):
         m = int(src.split('.reshape(')[1].split(',')[0])
         for site, code, op, plain in ss_calls(r, labels, vt, m):
             env = check_call(ctx, r, 'ss', site, src, code, 'ss', plain, lambda rr, target, labels=labels: ss_edits(rr, target, labels), nscripts)
+            if env is not None and op is not None and 'res' in env:
+                ln, obs, rows = ss_alias_line(env, op)
+                lines.append(ln); expect.append((obs, rows)); meta.append(site)
+        # the same calls on a receiver that is still pending (from_future, not done) when the call is made
+        PEND = ' (receiver pending at call time)'
+        psrc = src.replace('ss = ', 'base = ', 1) + '\nss = dimod.SampleSet.from_future(LateFuture(base))'
+        for site, code, op, plain in ss_calls(r, labels, vt, m):
+            env = check_call(ctx, r, 'ss', site, psrc, code, 'ss', plain, lambda rr, target, labels=labels: ss_edits(rr, target, labels), nscripts,
+                             before_recv='base', suffix=PEND)
             if env is not None and op is not None and 'res' in env:
                 ln, obs, rows = ss_alias_line(env, op)
                 lines.append(ln); expect.append((obs, rows)); meta.append(site)
